@@ -576,3 +576,34 @@ Section Config.
         end
     end.
 End Config.
+
+(* ------------------------------------------------------------------ internal/report/source.go
+   sourcePrinter.functions (source.go:716) walks the sorted line numbers of a file and merges a line
+   into the preceding function when  l - last.end < mergeLimit  (Go int arithmetic: wraps);
+   generateFile (source.go:663) then visits EVERY line number from begin to end. *)
+Definition wrap64 (z : Z) : Z := (z + 9223372036854775808) mod 18446744073709551616 - 9223372036854775808.
+Definition merge_limit : Z := 20.
+Definition merges (last_end l : Z) : bool := wrap64 (l - last_end) <? merge_limit.
+
+(* [begin, end) ranges of the lines of one function name, lines ascending *)
+Fixpoint merge_lines (cur : option (Z * Z)) (lines : list Z) : list (Z * Z) :=
+  match lines with
+  | [] => match cur with Some r => [r] | None => [] end
+  | l :: r =>
+      match cur with
+      | None => merge_lines (Some (l, wrap64 (l + 1))) r
+      | Some (b, e) =>
+          if merges e l then merge_lines (Some (b, wrap64 (l + 1))) r
+          else (b, e) :: merge_lines (Some (l, wrap64 (l + 1))) r
+      end
+  end.
+
+(* iterations of  for l := fn.begin; l < fn.end; l++ *)
+Definition visits (r : Z * Z) : Z := Z.max 0 (snd r - fst r).
+
+(* F25: two line numbers 2^63 or more apart (decidable class predicate; lines ascending) *)
+Definition in_F25 (lines : list Z) : bool :=
+  match lines with
+  | [] => false
+  | l :: r => 9223372036854775808 <=? (last r l - l - 1)
+  end.
